@@ -819,7 +819,7 @@ func c01Run(rc *core.RunCtx) {
 	forms := c01Depth1([]V{vInt(1), vInt(2)}, false)
 	nOps := 18
 	if !rc.Quick() {
-		nOps = 24
+		nOps = 21
 	}
 	c01Deep(rc, forms, c01Operands(nOps), func(t *enode) { c.checkExpr(t, "depth2") })
 	// (1c) depth 3 (thorough): depth-2 trees as operands of the binary/boolean/conditional forms
@@ -834,9 +834,9 @@ func c01Run(rc *core.RunCtx) {
 			{kind: "ifexp", kids: []*enode{leaf(vInt(1)), leaf(vInt(2)), leaf(vInt(0))}},
 			{kind: "cmp", ops: []string{"<", "<"}, kids: []*enode{leaf(vInt(0)), leaf(vInt(1)), leaf(vInt(2))}},
 		}, small, func(t *enode) { d2 = append(d2, t) })
-		if len(d2) > 400 {
+		if len(d2) > 250 {
 			// deterministic thinning: every k-th
-			k := len(d2)/400 + 1
+			k := len(d2)/250 + 1
 			var th []*enode
 			for i := 0; i < len(d2); i += k {
 				th = append(th, d2[i])
